@@ -183,6 +183,12 @@ class PipeSim(object):
             elif f == 'tout_missing_source':
                 outs.append({'source': 'task:///never_written.%d' % i,
                              'target': 'client:///o.%d' % i, 'action': rp.TRANSFER})
+            if s.get('soe'):
+                # stage_on_error + an output transfer which can be carried out (the launch output file
+                # exists as soon as the task was launched)
+                d['stage_on_error'] = True
+                outs.append({'source': 'task:///%s.launch.out' % uid, 'target': 'client:///soe.%d.out' % i,
+                             'action': rp.TRANSFER})
             if ins:
                 d['input_staging'] = ins
             if outs:
